@@ -324,3 +324,48 @@ M("c14-benign-helper", "C14", [(PRE, """        if is_path:
             source = self.__extract_text(source)
         return bool(_re.search(""", """        source = self.__extract_text(source) if is_path else source
         return bool(_re.search(""")], expect="silent")
+
+# ---------------------------------------------------------------- C20
+M("c20-concat-writes-pattern", "C20", [(PRE, """        pattern = pattern + pre if on_right else pre + pattern
+
+        return __class__(pattern, escape=False)""", """        pattern = pattern + pre if on_right else pre + pattern
+        self.__pattern = pattern
+        return self""")], rule="R-WRITEONCE")
+M("c20-write-on-operand", "C20", [(PRE, """        pre = __class__._to_pregex(pre)
+
+        if pre._get_type() == _Type.Empty:
+            return self
+
+        pattern = self._concat_conditional_group()""", """        pre = __class__._to_pregex(pre)
+        pre._used = True
+
+        if pre._get_type() == _Type.Empty:
+            return self
+
+        pattern = self._concat_conditional_group()""")], rule="R-WRITEONCE")
+M("c20-module-memo", "C20", [(PRE, "class _Type(_enum.Enum):", "_MEMO = {}\n\n\nclass _Type(_enum.Enum):"),
+                             (PRE, """        if isinstance(pre, str):
+            return Pregex(pre, escape=True)""", """        if isinstance(pre, str):
+            if pre not in _MEMO:
+                _MEMO[pre] = Pregex(pre, escape=True)
+            return _MEMO[pre]""")], rule="R-NOSHARED")
+M("c20-table-mutated", "C20", [(PRE, """        return __class__.__groupping_rules[self.__type][0]""", """        __class__.__groupping_rules.setdefault(self.__type, (False, False, False))
+        return __class__.__groupping_rules[self.__type][0]""")], rule="R-NOSHARED")
+M("c20-infix-append", "C20", [(ESS, """        if not isinstance(infix, list):
+            infix = [infix]
+        for s in infix:""", """        if not isinstance(infix, list):
+            infix = [infix]
+        else:
+            infix.append(infix[0])
+        for s in infix:""")], rule="R-NOARGMUT")
+M("c20-reduce-chars-unfresh", "C20", [(CLS, "ranges, chars = reduce_chars(list(ranges), list(chars))", "chars = list(chars)\n        ranges, chars = reduce_chars(list(ranges), chars)")], expect="fire", rule="R-NOARGMUT")
+M("c20-alternation-from-set", "C20", [(ESS, "        either_sign = _op.Either('+', '-')\n", "        either_sign = _op.Either(*{'+', '-'})\n")], rule="R-SETORDER")
+M("c20-join-set-as-alternation", "C20", [(CLS, """            f"[{'^' if pre1.__is_negated else ''}{''.join(result)}]",
+            pre1.__is_negated, simplify_word)""", """            f"(?:{'|'.join(result)})",
+            pre1.__is_negated, simplify_word)""")], rule="R-SETORDER")
+M("c20-hash-in-text", "C20", [(PRE, "    def __str__(self) -> str:", "    def _key(self) -> str:\n        return str(hash(self.__pattern))\n\n\n    def __str__(self) -> str:")], rule="R-NOHIDDEN")
+M("c20-global-counter", "C20", [(PRE, "class _Type(_enum.Enum):", "_COUNT = 0\n\n\nclass _Type(_enum.Enum):"),
+                                (PRE, "        self.__compiled: _re.Pattern = None\n", "        self.__compiled: _re.Pattern = None\n        global _COUNT\n        _COUNT += 1\n")], rule="R-NOSHARED")
+M("c20-mutable-default", "C20", [(ESS, "    def __init__(self, formats: _Optional[_Union[str, list[str]]] = None, is_extensible: bool = False) -> _pre.Pregex:", "    def __init__(self, formats: _Optional[_Union[str, list[str]]] = [], is_extensible: bool = False) -> _pre.Pregex:")], rule="R-NOSHARED")
+M("c20-benign-local-list", "C20", [(ESS, "        dates: list[_pre.Pregex] = []\n", "        dates = list()\n")], expect="silent")
+M("c20-benign-sorted-set", "C20", [(PRE, "        for c in {'^', '$', '(', ')', '[', ']', '{', '}', '?', '+', '*', '.', '|', '/'}:", "        for c in sorted({'^', '$', '(', ')', '[', ']', '{', '}', '?', '+', '*', '.', '|', '/'}):")], expect="silent")
